@@ -29,7 +29,7 @@ MixedEnumW == TEnum(<<Member("auto", VStr("auto"), "string"), Member("5", VStr("
 MixedEnumN == TEnum(<<Member("0", VStr("0"), "string"), Member("unlimited", VStr("unlimited"), "string"), Member("3", VStr("3"), "string")>>)
 
 Leaves == <<TString, TScalar("int64"), TRef("p", "S"), TRef("p", "E"), AnonEnum, AnonStruct, TRef("p", "U"), IntEnum,
-            NumStrEnum, ConstUnion, TRef("p", "A2"), SignUnion, MixedEnumW, MixedEnumN, TRef("p", "Sg")>>
+            NumStrEnum, ConstUnion, TRef("p", "A2"), SignUnion, MixedEnumW, MixedEnumN, TRef("p", "Sg"), TRef("p", "AArr")>>
 
 \* constructors applied to an inner type x (the position under test)
 Ctors == <<"array", "mapval", "mapkey", "field", "optfield", "ornull", "orstring", "orref", "allof">>
@@ -66,6 +66,10 @@ SgObj == Obj("p", "Sg", TEnum(<<Member("+", VStr("+"), "string"), Member("-", VS
 \* an alias of an alias of a scalar (aliases are inlined by some chains)
 A1Obj == Obj("p", "A1", TString)
 A2Obj == Obj("p", "A2", TRef("p", "A1"))
+\* a named array and an alias of it (chains that dissolve aliases rebuild the fields that used them: the field's own
+\* required-ness and nullability must survive the rebuilding)
+ArrObj == Obj("p", "Arr", TArray(TString))
+AArrObj == Obj("p", "AArr", TRef("p", "Arr"))
 
 Positions == {"field", "optfield", "object"}
 \* the SAME type used twice in one struct, required then optional and the other way round (shapes of length <= 1 only): a pass that
@@ -80,7 +84,7 @@ CaseIR(shape, leaf, pos) ==
                 [] pos = "object"   -> Obj("p", "Root", t)
       \* a second package holding the SAME type under test (objects generated from it must exist in BOTH packages)
       mirror == Obj("q", "Mirror", TStruct(<<Field("m", t, TRUE)>>))
-  IN <<SchemaOf("p", <<root, SObj, S2Obj, EObj, UObj, A1Obj, A2Obj, SgObj, EonObj>>), SchemaOf("q", <<mirror>>)>>
+  IN <<SchemaOf("p", <<root, SObj, S2Obj, EObj, UObj, A1Obj, A2Obj, SgObj, EonObj, ArrObj, AArrObj>>), SchemaOf("q", <<mirror>>)>>
 
 Cases == {[shape |-> s, leaf |-> l, pos |-> ps] :
             s \in {x \in Shapes(MaxDepth) : TRUE}, l \in DOMAIN Leaves, ps \in Positions}
